@@ -72,6 +72,12 @@ CHECKS = {
    design_ref="DESIGN.md section 4 C06",
    note="Assumed: the operator inventories written from the public dialect definitions (not installed), operator semantics. Not under contract: Pat<> wrapper, alternative constant context, PrinterBase step for the XLA target (C05/O2 covers the shared code). Known finding (open): StableHLO_PosOp does not exist.",
    technique="contract-based verification by structural induction: per-kind parse-back obligations on the real printers decided by an independent dag parser and spec tables"),
+ "C03": dict(
+   category="proof",
+   text="The algorithm definitions are traced by the repository's tracer and expanded through the package's own definitions down to primitive real operations (the expanded DAGs have 4..143 nodes); identities are SMT obligations `bits(lhs) == bits(rhs)` over two translations of the DAG with add/sub/mul/div/sqrt and the real natives uninterpreted and negation/abs/comparisons/select/min/max exact, the abstraction being justified by a lemma library of single-operation IEEE facts discharged bit-precisely per format and instantiated on the terms that occur. Claimed for float32- and float64-based types: conjugation symmetry of absolute, acos, acosh, asin, asinh, atan, exp, sqrt, square; oddness of asin and asinh (non-zero components); asinh(z) = -i asin(iz); atan(z) = -i atanh(iz); acosh(z) = +-i acos(z) by the sign of imag z; imag acos = -imag asin.",
+   design_ref="DESIGN.md section 4 C03, section 9",
+   note="Assumed: atan2 odd in its first argument incl. sign of zero, sin odd, cos even (natives); at float64 the lemmas about division and negated addition/subtraction time out and are ASSUMED there (proved at float32) - float64 identities are proofs relative to them. NOT claimed (attempted; abstract counter-models that do not replay on the real code): conj of log/log1p/log2/log10/atanh, oddness of atan/atanh, evenness of square, the zero-component lattice, real-valued algorithms, log10/log2 = log/ln b.",
+   technique="contract-based deductive verification: identities over the traced+expanded DAG in QF_UFFP (uninterpreted arithmetic + ground-instantiated, separately proved IEEE lemmas), z3"),
 }
 NA_PENDING = "check not built yet in this session (planned, see DESIGN.md section 4)"
 NA = {
@@ -103,6 +109,7 @@ def main():
       "engines": [
         {"name": "E0 core", "path": "vf/core.py", "serves_properties": sorted(CHECKS), "kind_free_text": "obligation pool, z3/cvc5 portfolio, verdict protocol, evidence/replay writer"},
         {"name": "E1 symfp", "path": "vf/symfp.py", "serves_properties": ["C10"], "kind_free_text": "operation log + rounding-mode-agreement exactness queries + ring identity over exact operations"},
+        {"name": "E1 dagfp", "path": "vf/dagfp.py", "serves_properties": ["C03"], "kind_free_text": "repository tracer + expansion to primitive kinds; DAG -> SMT with uninterpreted arithmetic; lemma library and ground instantiation"},
         {"name": "E2 symrun", "path": "vf/symrun.py", "serves_properties": ["C07", "C14", "C15", "C18", "C19"], "kind_free_text": "runs real code objects on symbolic NumPy scalars / ints with shadowed builtins; decision-prefix path forking; per-path VCs"},
         {"name": "E3 symexpr", "path": "vf/symexpr.py", "serves_properties": ["C04"], "kind_free_text": "abstract expressions with holes: lazy shape refinement, aliasing, key-order and inference-knowledge forks over the real Rewriter/Expr code; vf/denote.py semantics; vf/witness.py native replay"},
         {"name": "E4 ring", "path": "vf/ring.py", "serves_properties": ["C16"], "kind_free_text": "canonical-form polynomial/rational-function arithmetic with path forking on zero tests"},
